@@ -46,7 +46,7 @@ ASSUMPTIONS = ["tables are written through cherab.openadas.repository.update_* (
                "tables have log-slopes <= ~3 per decade and knot spacing >= 0.1 decade so that permitted "
                "extrapolation one decade out stays inside the double range",
                "arguments are finite doubles (no NaN / inf)"]
-QUICK = dict(cases=260, workers=2, timecap=45)
+QUICK = dict(cases=700, workers=2, timecap=45)
 THOROUGH = dict(cases=30000, workers=16, timecap=600)
 REQUIRED = {"knot": 20000, "nonneg": 5000, "nonpositive": 1500, "range_raise": 800, "range_finite": 800,
             "isotope": 100, "wavelength": 100, "missing_raise": 150, "missing_null": 150}
@@ -815,7 +815,7 @@ def _judge(case, ctx, adas, acc, req, entry, wl_model, pe, null, fb):
     # ------------------------------------------------------------------ everything present
     _seen_accessor(ctx, acc)
     if o.exc is not None:
-        if single:
+        if single and isinstance(o.exc, ValueError):
             bad = [a for a in single]
             if acc in FAM_BEAM:
                 key = "single-point-axis:%s:%s" % (acc, "t" if "t" in bad else "+".join(bad))
